@@ -56,12 +56,51 @@ def judge(binary, lines, timeout=600, events=False, shards=None, cluster=False):
     return obs, d, crashes, se
 
 
+def footprint_control(R, obs, label):
+    """Negative control of the footprint clause (C05/C13 tie): in a sample of traced commands that locked something, the stripe table
+    `kp=` is shifted by one, so the stripes of the model footprint's keys are no longer the stripes the implementation locked; the
+    driver must object to every such line (at most one per program: the driver stops judging a program at its first mismatch)."""
+    lines, n, taken, k = [], 0, False, 0
+    for l in obs:
+        if l.startswith("R"):
+            taken, k = False, 0
+        f = l.split(" ")
+        evs = [x for x in f if x.startswith("ev=")]
+        kps = [i for i, x in enumerate(f) if x.startswith("kp=") and x != "kp=-"]
+        locked = bool(evs) and any(e.startswith(("L", "RL")) for e in evs[0][3:].split(","))
+        if l.startswith("X ") and locked and kps and cmd_of(l) != "keys" and not taken and n < 400:
+            k += 1
+            if k % 3 == 0:
+                i = kps[0]
+                f[i] = "kp=" + ",".join(str(int(x) + 1) for x in f[i][3:].split(","))
+                lines.append(" ".join(f))
+                n += 1
+                taken = True
+                continue
+        lines.append(l)
+    if n == 0:
+        return
+    d = core.run_driver(lines)
+    hit = sum(1 for m in d["mismatches"] if "footprint:" in m)
+    ok = hit >= max(1, int(n * 0.9))
+    R.oblige("negative control %s/footprint: the driver objects when the locked stripes are not the stripes of the model footprint "
+             "(%d of %d shifted stripe tables reported)" % (label, hit, n), "control", ok, "driver reported %d of %d" % (hit, n))
+    R.extra.setdefault("negative_control", {})[label + "/footprint"] = dict(damaged=n, reported=hit)
+    if not ok:
+        R.violation("negative-control-footprint-" + label.replace("/", "-"), dict(
+            kind="tie-broken", summary="the Lean driver accepted %d of %d observation lines whose stripe table had been shifted: the footprint "
+                                       "clause (locked stripes = stripes of Exec.lockPlan's keys) is not judging" % (n - hit, n),
+            lines=lines[:50]), found_input=False)
+
+
 def run_exec_suite(R, ctx, name, gens, nprog, corpus, what, keys=None, maxlen=40, extra_lines=None, events=False, shards=None,
                    cluster=False):
     R.rule = ("programs: 1-%d commands over a small colliding key alphabet (case variants, empty key, CR/LF and binary keys), generated from the "
               "command family's grammar with mostly-valid arguments plus arity/option damage; after every command the reply bytes and the dump of "
-              "the touched keys (every 10th command and the last: the whole keyspace and its counter) are compared with the Lean model. "
-              "Covers: %s. A command is non-trivial when the model's reply is not an error; distinct = distinct command lines." % (maxlen, what))
+              "the touched keys (every 10th command and the last: the whole keyspace and its counter) are compared with the Lean model%s "
+              "Covers: %s. A command is non-trivial when the model's reply is not an error; distinct = distinct command lines."
+              % (maxlen, " and, with hook H2 recording, the stripes the command locked (and their modes) with the model footprint Exec.lockPlan."
+                 if events else ".", what))
     binary, err = core.build_harness()
     R.oblige("harness builds against /repo working tree (-tags verif)", "build", binary is not None, err or "")
     if binary is None:
@@ -92,6 +131,8 @@ def run_exec_suite(R, ctx, name, gens, nprog, corpus, what, keys=None, maxlen=40
     else:
         obs, d, crashes, se = judge(binary, lines, events=events, cluster=cluster)
     core.negative_control(R, obs[:60000], "exec/" + name, skip=lambda l: not l.startswith("X ") or " => " not in l, group=True)
+    if events:
+        footprint_control(R, obs[:60000], "exec/" + name)
     dist = collections.Counter(cmd_of(l) for l in obs if l.startswith("X"))
     errs = sum(1 for l in obs if " => " in l and l.split(" => ")[1].split()[2:3] and l.split(" => ")[1].split()[2].startswith("2d"))
     distinct = len(set(l.split(" => ")[0].split(" ", 2)[2] for l in obs if l.startswith("X") and len(l.split(" => ")[0].split(" ", 2)) > 2))
